@@ -2,7 +2,7 @@
    ONLY statements: each theorem is closed by `exact` of a lemma proved elsewhere and followed by Print Assumptions. *)
 From Coq Require Import ZArith NArith List Bool Lia Permutation SpecFloat.
 Import ListNotations.
-Require Import Base Strings Builtins Interp Machine Spec RunG Codec Bits Float RoundProofs LinkBits.
+Require Import Base Strings Builtins Interp Machine Spec RunG Codec Bits Float Refine2 RoundLink RoundProofs LinkBits.
 Open Scope Z_scope.
 Theorem and_bits x y i :
   Z.testbit (bw 0 x y) i = Z.testbit x i && Z.testbit y i.
@@ -59,6 +59,24 @@ Theorem bitwise_module_not (rec : list positive -> heap -> world -> task -> out)
   runG rec value ip h w (module_body [5; m_bitwise; 4] sp [VInt x]) = DoneG h w (inl (VInt (Z.lnot x))) 0.
 Proof. exact (Bits.bitwise_module_not rec x sp ip h w). Qed.
 Print Assumptions bitwise_module_not.
+
+(* the module functions ㅂ ㅅ ㅂㄹ k on an evaluated real ARE Float.rounding k, characterised below *)
+Theorem rounding_module_on_real (rec : list positive -> heap -> world -> task -> out) k f n sp ip h w :
+  rounding k f = Some n ->
+  runG rec value ip h w (module_body [5; 6; -29; k] sp [VFloat f]) = DoneG h w (inl (VInt n)) 0.
+Proof. exact (RoundLink.rounding_module_on_real rec k f n sp ip h w). Qed.
+Print Assumptions rounding_module_on_real.
+
+Theorem rounding_module_on_integer (rec : list positive -> heap -> world -> task -> out) k n sp ip h w :
+  runG rec value ip h w (module_body [5; 6; -29; k] sp [VInt n]) = DoneG h w (inl (VInt n)) 0.
+Proof. exact (RoundLink.rounding_module_on_integer rec k n sp ip h w). Qed.
+Print Assumptions rounding_module_on_integer.
+
+Theorem rounding_module_not_finite (rec : list positive -> heap -> world -> task -> out) k f sp ip h w :
+  rounding k f = None ->
+  runG rec value ip h w (module_body [5; 6; -29; k] sp [VFloat f]) = DoneG h w (inr (mkerr c_arith sp)) 0.
+Proof. exact (RoundLink.rounding_module_not_finite rec k f sp ip h w). Qed.
+Print Assumptions rounding_module_not_finite.
 
 (* the five roundings of the model return the unique integer their direction defines, for every finite double (mantissa of any size), stated in integer arithmetic with k = 2^(-e) *)
 Theorem rounding_floor s m e n :
